@@ -1682,12 +1682,28 @@ static void voronoi_case(uint64_t caseid, vh::Rng r, int64_t nloc, int64_t nrays
   std::printf("INFO voronoi case=%" PRIu64 " type=%s generators=%zu (%s) anchor=(%.17g,%.17g,%.17g) sides=(%.17g,%.17g,%.17g)\n", caseid, type.c_str(), n, gkn[gk], D.lo[0], D.lo[1], D.lo[2], D.side[0],
               D.side[1], D.side[2]);
   std::fflush(stdout);
-  VoronoiDensityGrid grid(new ListGeneratorDistribution(gen), D.box(), type, 0, CoordinateVector< bool >(false), false, false, nullptr);
+  // Lloyd relaxation (DensityGrid: number of Lloyd iterations): every fourth grid is regularised by 1 or 2 iterations.  The
+  // generators then are whatever the grid reports afterwards (get_cell_midpoint); all geometric clauses below are stated
+  // in terms of those reported generators, so they must belong to the faces, volumes and neighbour lists the grid holds.
+  const int lloyd = (caseid % 4 == 3) ? 1 + (int)((caseid / 4) % 2) : 0;
+  VoronoiDensityGrid grid(new ListGeneratorDistribution(gen), D.box(), type, (uint_fast8_t)lloyd, CoordinateVector< bool >(false), false, false, nullptr);
   UnitDensityFunction df;
   df.initialize();
   {
     std::pair< cellsize_t, cellsize_t > block = std::make_pair((cellsize_t)0, (cellsize_t)n);
     grid.initialize(block, df);
+  }
+  if (lloyd) {
+    g_st.inc("voronoi_grids_with_lloyd_iterations");
+    size_t moved = 0;
+    for (size_t c = 0; c < n && c < (size_t)grid.get_number_of_cells(); ++c) {
+      const CV m = grid.get_cell_midpoint(c);
+      if (absmax3(m - gen[c]) > 0.) ++moved;
+      gen[c] = m;
+      for (int i = 0; i < 3; ++i)
+        if (!(m[i] >= D.lo[i] && m[i] <= D.hi[i])) C16_VIOL("voronoi/lloyd/generator-outside-box", caseid, "cell %zu generator[%d]=%.17g after %d Lloyd iterations", c, i, m[i], lloyd);
+    }
+    g_st.inc("voronoi_generators_moved_by_lloyd", moved);
   }
   if (caseid < 2)
     std::printf("SAMPLE voronoi case=%" PRIu64 " type=%s generators=%zu (%s) anchor=(%.6g,%.6g,%.6g) sides=(%.6g,%.6g,%.6g) locates=%" PRId64 " rays=%" PRId64 "\n", caseid, type.c_str(), n, gkn[gk], D.lo[0], D.lo[1],
